@@ -98,6 +98,18 @@ class DDPDistributor(DistributorInterface):
         )
         group_rank: int = dist.get_rank(group=self._dist_group)
 
+        # Instantiate the device meshes that hold the per-owner optimizer states on every rank and in the same order.
+        # Creating a DeviceMesh creates process groups, which torch.distributed requires to be done collectively and
+        # in the same order by all ranks; doing it lazily in _allocate_zeros_distributed_tensor means only the owner
+        # of a block creates its mesh. get_device_mesh caches the meshes, so the later calls reuse them.
+        for group_source_rank in range(self._group_size):
+            get_device_mesh(
+                device_type=self._global_blocked_params[0].device.type,
+                mesh=tuple(
+                    range(group_source_rank, self._global_size, self._group_size)
+                ),
+            )
+
         # Assign ranks to blocks with their respective buffer size.
         buffer_size_ranks = self._distribute_buffer_sizes(
             buffer_sizes=tuple(
